@@ -29,6 +29,7 @@ PARTIAL = [
     "there the control points are NOT unique); these are checked by the exact oracle and the correspondence only",
     "object-level (Shape) round trip removeKnot (insertKnot S ...).1 ... = (S, true), the partial version (r in, t <= r out = r - t in) and the evaluated-point corollary are proved for curves, for either direction of a surface and for any direction of a volume (surface_insert_then_remove, volume_insert_then_remove, *_insert_r_remove_t_object, *_remove_after_insert_preserves_points) when the call requests ONE direction (OnlyDir); insert in several directions followed by removal in several directions is not proved (the removal of the first direction then runs on a net refined in the others: needs the commutation of insertion in one direction with removal in another)",
     "volumes, list-of-rows branch of helpers.knot_removal: MODELLED as coded (knotRemovalRows: sweep over whole rows, ONE removability flag per step from the FIRST point of the rows, and the object sharing between temp and ctrlpts_new - temp[last-first+2] = ctrlpts_new[last+1] stores the list itself, which the sweep of the next step writes into; streams rem-rows (inserted / random / only-first-removable / first-not-removable rows, 1..s copies, and the three Lean witnesses) and rem-vol-rows against the real helper called with rows and against operations.remove_knot on volumes, removable or not). PROVED: if every iso-curve passes the removability test at every step (Rows.AllRemovable, decidable; true after insertion: inserted_knots_all_removable) the rows branch returns exactly the per-iso-curve results (knotRemovalRows_isocurve_of_all_removable, knotRemovalRows_is_transposed_knotRemoval, mapVolRows_remove_eq_mapVol, removeKnotVolRows_is_removeKnotDir, volume_u/v/w_rows_insert_r_remove_t); for ONE removal it does so on every iso-curve whose flag equals the first iso-curve's flag (knotRemovalRows_one_removal_isocurve_of_equal_flags); rows stay rectangular for any input. REFUTED on concrete witnesses (kernel-decided, replayed on the implementation): the two flag mismatches (knotRemovalRows_refutes_isocurve_when_only_first_removable / _when_first_not_removable) and, for 2+ removals of a knot that is NOT removable, the write through the shared row, which changes a control point even with a single iso-curve (knotRemovalRows_refutes_point_branch_on_shared_row: rows branch 8, point branch 1). NOT proved: agreement for 2+ removals when some step finds the knot not removable (there the two branches of the CODE genuinely differ); the object-level model removeKnotDir / removeKnot keeps deciding per iso-curve, so the operation-level streams ins-rem* still generate only removable knots for volumes - the rows model (rowsvol) is the one compared on unremovable volume knots",
+    "knotRemovalRows_isocurve_of_all_removable / knotRemovalRows_one_removal_isocurve_of_equal_flags carry the rectangular-rows guard of the code / driver as hypothesis (not used by the proofs)",
 ]
 
 
